@@ -113,3 +113,38 @@ pub fn sized_v(kind: usize, pad: usize, name: usize, direct: bool) -> Vec<u8> {
         _ => unreachable!(),
     }
 }
+
+/// kinds whose body is a list of children handed over as `Vec<&dyn Aml>` (or one at a time)
+pub fn takes_children(kind: usize) -> bool {
+    matches!(SIZED_KINDS[kind], "Package" | "PackageBuilder" | "ResourceTemplate" | "Device" | "Scope" | "Method" | "If" | "Else" | "While" | "PowerResource")
+}
+/// an object of `kind` with `n` children of `width` encoded bytes each (1: One, 2: byte constant, 9: qword constant)
+pub fn sized_many(kind: usize, n: usize, width: usize) -> Vec<u8> {
+    let b: u8 = 0x55;
+    let q: u64 = 0x0102_0304_0506_0708;
+    let c: &dyn Aml = match width {
+        1 => &ONE,
+        2 => &b,
+        _ => &q,
+    };
+    let kids: Vec<&dyn Aml> = vec![c; n];
+    match SIZED_KINDS[kind] {
+        "Package" => ser(&Package::new(kids)),
+        "PackageBuilder" => {
+            let mut p = PackageBuilder::new();
+            for k in &kids {
+                p.add_element(*k);
+            }
+            ser(&p)
+        }
+        "ResourceTemplate" => ser(&ResourceTemplate::new(kids)),
+        "Device" => ser(&Device::new("DEV0".into(), kids)),
+        "Scope" => ser(&Scope::new("_SB_".into(), kids)),
+        "Method" => ser(&Method::new("MTH0".into(), 0, false, kids)),
+        "If" => ser(&If::new(&ONE, kids)),
+        "Else" => ser(&Else::new(kids)),
+        "While" => ser(&While::new(&ONE, kids)),
+        "PowerResource" => ser(&PowerResource::new("PWR0".into(), 1, 2, kids)),
+        _ => unreachable!(),
+    }
+}
